@@ -359,7 +359,19 @@ func vfIdnaDomain(rnd *rand.Rand, bad bool) (string, string) {
 		ls = append(ls, l)
 		tags = append(tags, tg)
 	}
-	return strings.Join(ls, "."), strings.Join(tags, ",")
+	d := strings.Join(ls, ".")
+	// edge shapes: leading dot, trailing dot, an empty label inside
+	switch rnd.Intn(12) {
+	case 0:
+		d, tags = "."+d, append(tags, "leading-dot")
+	case 1:
+		d, tags = d+".", append(tags, "trailing-dot")
+	case 2:
+		if i := strings.IndexByte(d, '.'); i >= 0 {
+			d, tags = d[:i]+"."+d[i:], append(tags, "double-dot")
+		}
+	}
+	return d, strings.Join(tags, ",")
 }
 
 func vfIdnaRecord(env *vfEnv) {
